@@ -174,3 +174,33 @@ func (o *Obs) Apis() map[string]interface{} {
 		"pn": o.Pn,
 	}
 }
+
+// ---- extra observers used by the conc-block monitor (C18) ----
+
+// Ev completes member id (with its hold) and yields v, so that `x = ev(id, v)` is an
+// assignment whose right-hand side is observed.
+func (o *Obs) Ev(id int64, v int64) int64 {
+	o.En(id)
+	return v
+}
+
+// ConcInner is reached through a three-level call CO.In.M3(id).
+type ConcInner struct{ o *Obs }
+
+func (c ConcInner) M3(id int64) int64 { c.o.En(id); return id }
+
+// ConcTarget is the injected object CO: methods for method-call members, fields for
+// assignments to injected data.
+type ConcTarget struct {
+	o  *Obs
+	In ConcInner
+	F1 int64
+	F2 int64
+	F3 int32
+	F4 uint16
+}
+
+func (c *ConcTarget) M(id int64) int64  { c.o.En(id); return id }
+func (c *ConcTarget) MP(id int64) int64 { c.o.Fl(id); panic("injected method panics on purpose") }
+
+func (o *Obs) NewConcTarget() *ConcTarget { return &ConcTarget{o: o, In: ConcInner{o}} }
